@@ -45,6 +45,7 @@ type Config struct {
 }
 
 type World struct {
+	regGate chan struct{} // non-nil: reverse-tunnel handlers wait at the hook between the two registrations
 	cfg     Config
 	free    bool
 	mu      sync.Mutex
@@ -610,3 +611,10 @@ func encCensus(c map[string]int) string {
 // staleMsg: a receive target that still holds the content of an earlier use - RecvMsg / Invoke
 // must replace it entirely, also with an empty message
 func staleMsg() *Msg { return &Msg{Value: []byte("stale content of an earlier receive")} }
+
+// serveReturned: the reverse-tunnel Serve call of tunnel t has returned
+func (w *World) serveReturned(t int) bool {
+	w.mu.Lock()
+	defer w.mu.Unlock()
+	return t < len(w.tunnels) && w.tunnels[t].serveRet
+}
